@@ -262,15 +262,15 @@ def head_positions(tokens, fp=None):
 
 
 def enumerate_cases(seeds, tier):
-    """Generator of (seed_index, mut) in a fixed order.  quick: every 1-deviation mutant at every head position (every message head of the
-    stream, incl. 1xx heads and pipelined requests) plus chunk-size lines; thorough: every 1-deviation mutant at every token position +
-    every 2-deviation mutant over the selected start-line/framing tokens (pair_positions) x OPS2.  Mutants equal to the seed or to an
-    earlier mutant of the same seed are skipped."""
+    """Generator of (seed_index, mut) in a fixed order.  quick: every 1-deviation mutant at every start-line / framing position (all
+    tokens of every start line incl. the request target, values of the framing fields, the blank line ending a head, chunk-size lines);
+    thorough: every 1-deviation mutant at every token position + every 2-deviation mutant over the selected start-line/framing tokens
+    (pair_positions) x OPS2.  Mutants equal to the seed or to an earlier mutant of the same seed are skipped."""
     for si, s in enumerate(seeds):
         toks = tokenize(s['stream'])
         fp = framing_positions(toks)
         yield (si, ())
-        positions = head_positions(toks, fp) if tier == 'quick' else list(range(len(toks)))
+        positions = fp if tier == 'quick' else list(range(len(toks)))
         seen = {hashlib.sha1(s['stream']).digest()}
         for p in positions:
             for op in OPS1:
@@ -639,7 +639,11 @@ class HWorld:
             else:
                 cls = 'closed-without-response'
             outcome = '%s:%s%s%s' % (seed['dir'], cls, ':forwarded' if fwd else '', ':after-timeout' if waited else '')
-            transcript = (outcome, c.inbuf[:40].split(b'\r\n')[0], len(c.inbuf), c.eof)
+            # compared between two instances (determinism obligation).  Left out: whether virtual time had to pass and the size of
+            # Squid's own error pages - a mutated host can make Squid connect to a non-loopback address, and when/how the real kernel
+            # fails that connect (ENETUNREACH at once, EHOSTUNREACH after real seconds, nothing) is outside the shim's control
+            relayed = fwd and st is not None and st.group(1)[:1] != b'5'
+            transcript = (outcome.replace(':after-timeout', ''), c.inbuf[:40].split(b'\r\n')[0], len(c.inbuf) if relayed else -1, c.eof if relayed else None)
         finally:
             c.close()
         # the liveness probe runs while the origin-side connections of the case may still be open
@@ -817,7 +821,7 @@ ASSUME = ['the real squid binary (ASan build of the current tree, halt_on_error)
           'request_header_max_size / reply_header_max_size are set to %d bytes so that the "limit+1" atom stays cheap; all timeouts are set to <= 100 virtual seconds' % HDR_LIMIT,
           'one instance per shard is reused (memory cache on, unique URL per case); a failure is re-run twice on fresh instances before it is reported']
 RULE = ('distinct mutated streams: every token position (tokens = CRLF | HTTP-version | digit run | word | single byte) of every seed x {delete, duplicate, 26 hostile atoms} '
-        '(quick: request heads and response start-line/framing tokens only; thorough: all positions, plus all pairs over <= 12 start-line/framing word tokens per seed x 20 ops each); '
+        '(quick: start-line / framing-field / blank-line / chunk-size tokens only; thorough: all positions, plus all pairs over <= 12 start-line/framing word tokens per seed x 20 ops each); '
         'non-trivial = Squid answered the mutated connection with an HTTP response (it parsed the stream and either relayed it or produced its own error reply), '
         'as opposed to closing it silently')
 
@@ -867,7 +871,7 @@ def run(ctx):
            'exhaustive': (not deadline) and tot['evaluations'] == total_cases, 'cases_total': total_cases,
            'request_stream_cases': tot['req_cases'], 'response_stream_cases': tot['resp_cases'], 'seeds': nseeds, 'seed_outcomes': seed_outcomes,
            'kicks': tot['kicks'], 'instance_starts': tot['starts'], 'determinism_replays': tot['determinism_cases'],
-           'bound': 'k=1 at head/framing positions' if ctx.quick else 'k=1 at every token position; k=2 over start-line/framing word tokens'}
+           'bound': 'k=1 at start-line/framing positions' if ctx.quick else 'k=1 at every token position; k=2 over start-line/framing word tokens'}
     if deadline:
         cov['completed'] = 'stopped by deadline / violation cap after %d of %d cases' % (tot['evaluations'], total_cases)
     return Result(LEVEL, cov, violations, ASSUME)
